@@ -68,7 +68,10 @@ func TestVerifC07(t *testing.T) {
 						if succ == "other" && live == 0 {
 							continue // nobody else could become the next manager
 						}
-						for _, k := range []string{"crashmgr", "zkloss", "zkexpire"} {
+						for _, k := range []string{"crashmgr", "zkloss", "zkexpire", "zkblip"} {
+							if k == "zkblip" && succ != "same" {
+								continue // a brief loss of the coordination service: the same manager carries on
+							}
 							if k == "zkexpire" && os.Getenv("VERIF_LOCKROWS") == "" {
 								// server-side expiry with an instant handover is the compressed form of "cut off for longer
 								// than the session timeout"; it is used for the lock clauses (C03) only, where timing is
@@ -86,8 +89,9 @@ func TestVerifC07(t *testing.T) {
 	// the sample starts with the resumed AUTOMATIC failovers on three and four nodes (one per shard at least): they are the
 	// histories in which the recorded master has already moved when the request is picked up again
 	sort.SliceStable(bases, func(a, b int) bool {
-		pa := bases[a].req.Kind == "auto" && len(bases[a].hosts) >= 3
-		pb := bases[b].req.Kind == "auto" && len(bases[b].hosts) >= 3
+		// ... and with the failovers that the SAME manager resumes after losing the coordination service for one call
+		pa := bases[a].req.Kind == "auto" && (len(bases[a].hosts) >= 3 || bases[a].kind == "zkblip")
+		pb := bases[b].req.Kind == "auto" && (len(bases[b].hosts) >= 3 || bases[b].kind == "zkblip")
 		return pa && !pb
 	})
 	runs, nbase := 0, 0
@@ -166,6 +170,9 @@ func TestVerifC07(t *testing.T) {
 				} else if kind == "zkloss" {
 					kind = "zkloss_after"
 				}
+			}
+			if kind == "zkblip" && p[0] != "zk" {
+				continue
 			}
 			sc2 := sc
 			sc2.Fault = &faultSpec{Chan: p[0], Stmt: p[1], At: p[2], Occ: occ, Kind: kind}
